@@ -219,10 +219,12 @@ def exmod(
         extra_modules_to_all=extra_modules_to_all,
         first_output_directory=output_directory,
     )
-    packages: typing.List[str] = find_packages(
-        module_root_dir,
-        include=whitelist if whitelist else ("*",),
-        exclude=blacklist if blacklist else iter(()),
+    packages: typing.List[str] = sorted(
+        find_packages(
+            module_root_dir,
+            include=whitelist if whitelist else ("*",),
+            exclude=blacklist if blacklist else iter(()),
+        )
     )
 
     _exmod_single_folder(
